@@ -6,6 +6,6 @@
    After applying a fix to /repo: set its flag to [true] here and replace
    Props/Properties_C20.v by Props/Properties_C20.v.fixed (see lib/p_c20.py,
    which reports a stale flag). *)
-Definition fix_hex_helper : bool := false.   (* fixes/C20-hex-helper-length.patch *)
-Definition fix_ba_cmp : bool := false.       (* fixes/C20-bytearray-cmp-sign.patch *)
-Definition fix_ba_resize : bool := false.    (* fixes/C20-bytearray-resize-detach.patch *)
+Definition fix_hex_helper : bool := true.   (* fixes/C20-hex-helper-length.patch *)
+Definition fix_ba_cmp : bool := true.       (* fixes/C20-bytearray-cmp-sign.patch *)
+Definition fix_ba_resize : bool := true.    (* fixes/C20-bytearray-resize-detach.patch *)
